@@ -10,7 +10,8 @@ import sympy as sp
 
 from ..spec import Checker, FR, obj_summary
 from ..sigmodel import make_signal, pol_data, sym_complex, N, NCHAN
-from ..values import Num, StrV, ObjV, TupleV
+from ..values import Num, StrV, ObjV, TupleV, NONE, ListV, Unsupported
+from ..symeval import Raised
 from ..extapi import StackV
 
 EXPLANATION = (
@@ -218,6 +219,23 @@ def check(run, prog):
             except Exception as e:
                 ck.same("R2", f_get.where, "stokes['X'] " + tag, "an unknown component name is refused (KeyError)",
                         "KeyError" in str(e), found=str(e))
+    # the basis label the conversions branch on can only ever be 'linear' or 'circular': a refused assignment leaves the old label
+    st = prog.setter("DualPolarizationSignal", "pol_type")
+    run.touched(st)
+    for label, val in (("'Circular'", StrV("Circular")), ("''", StrV("")), ("None", NONE), ("1", Num(1)), ("['circular']", ListV([StrV("circular")]))):
+        zz = mk("linear")
+        old = zz.attrs.get("_pol_type")
+        ev = ck.evaluator()
+        tag = f"z.pol_type = {label}"
+        try:
+            ev.setattr(zz, "pol_type", val, FR())
+            ck.same("R1", st.where, tag, "an invalid basis label raises ValueError and is not stored", False, found=f"accepted; stored {zz.attrs.get('_pol_type')!r}", nontrivial=True)
+        except Raised as e:
+            ck.same("R1", st.where, tag, "an invalid basis label raises ValueError and the signal keeps the label it had (nothing is stored before the check)",
+                    e.exc_name == "ValueError" and zz.attrs.get("_pol_type") is old,
+                    found=f"{e.exc_name}; label now {zz.attrs.get('_pol_type')!r}", nontrivial=True)
+        except Unsupported as e:
+            ck.unk("R1", st.where, tag, "an invalid basis label raises ValueError", str(e)[:160])
     run.extra["decided_by"] = ck.how
     run.floor("R1", "formula obligations for the basis conversions", sum(1 for o in run.obs if o.rule.endswith("R1")), 16)
     run.floor("R2", "formula obligations for Stokes parameters", sum(1 for o in run.obs if o.rule.endswith("R2")), 20)
